@@ -488,6 +488,13 @@ pub fn eval_unit_name(
                     .into_iter()
                     .map(|(k, v)| (k, -v))
                     .collect::<BTreeMap<_, _>>();
+                // The constant only counts names, so it can vanish where the
+                // value of the target does not.
+                if right == Numeric::zero() {
+                    return Err(QueryError::generic(
+                        "Division by zero in the right hand side of a conversion".to_string(),
+                    ));
+                }
                 Ok((
                     crate::algorithms::btree_merge(&left_unit, &right_unit, |a, b| {
                         if a + b != 0 {
@@ -519,6 +526,11 @@ pub fn eval_unit_name(
                     ));
                 }
                 let (left_unit, left_value) = eval_unit_name(ctx, &binop.left)?;
+                if right < 0.0 && left_value == Numeric::zero() {
+                    return Err(QueryError::generic(
+                        "Division by zero in the right hand side of a conversion".to_string(),
+                    ));
+                }
                 Ok((
                     left_unit
                         .into_iter()
